@@ -12,7 +12,7 @@ _ALPHA = "ABCDEFGHIJKLMNOPQRSTUVWXYZ0123456789|,[]"
 
 
 def _text(rng, n: int) -> str:
-    return "".join(rng.choice(_ALPHA) for _ in range(n))
+    return "".join(rng.choices(_ALPHA, k=n)) if n > 0 else ""
 
 
 def gen_irset(rng, special: Optional[bool] = None, toggle: Optional[bool] = None,
